@@ -92,6 +92,10 @@ def _emit(outs, s_true, s_false, positive):
 
 def _membership(w, e, s, l, r, positive, outs):
     rlit = r if is_lit(r) else w.const_literal(r, s)
+    if rlit is not None and not is_lit(rlit):
+        norm = _as_set_literal(w, rlit, s)  # frozenset({...}) bound to a module constant
+        if is_lit(norm):
+            rlit = norm
     if rlit is not None and is_lit(rlit) and rlit[1] != "dict":
         vals = lit_const_values(rlit)
         # constant folding: "root" in ["root", "key_mgr"]
